@@ -26,8 +26,8 @@ META = dict(
     "personalisation epilogue hands back a model state with the same parameters and population values and no data / individual values / pending fork; the scipy "
     "plumbing only touches per-subject clones; constructors deep-copy the settings. The start point of scipy_minimize is proved NOT to depend only on parameters "
     "and inputs (recorded known finding: leftover individual values of a previous fit are reused).",
-    bounds="logistic (sources 0..1) and joint models, 2 individuals x 2 visits, 2 requested ages; n_iter symbolic in CrossHair",
-    outside="pandas copies of the caller's table, simulate's pandas pipeline, equality of repeated full runs (C11's core)",
+    bounds="logistic (sources 0..1) and joint models, 2 individuals x 2 visits, 2 requested ages; n_iter symbolic in CrossHair; the visits table handed to simulate (identifiers numeric or text, symbolic in CrossHair) through the construction / design checks / visit-age derivation",
+    outside="pandas copies of the caller's data in personalize / estimate, simulate's pandas pipeline after the visit ages (estimate, noise, assembly), equality of repeated full runs (C11's core)",
     assumptions=["samplers / annealing initialisation stubbed in the MCMC prologue check", "prior sampling replaced by fresh symbols in the start-point check"],
 )
 
